@@ -80,12 +80,16 @@ class Listener:
         self.probes = probes
         self.interp = None
         self.names = {}       # state name -> id
+        self.sync = None      # a SynchronizedClock following the interpreter (C14)
         self.seen = []        # own copy of what this listener received (C10: per-listener sequences)
         self.share = True
 
     def __call__(self, meta):
         n = meta.name
-        t = self.interp.time if self.interp is not None else 0
+        if self.sync is None and self.interp is not None:
+            from sismic.clock import SynchronizedClock
+            self.sync = SynchronizedClock(self.interp)
+        t = self.sync.time if self.sync is not None else 0
         ids = self.names
         if n == 'step started':
             e = loge('start', meta.time, t=t)
